@@ -250,7 +250,14 @@ fn check_session_rf(msgs: &[RefMsg], write_script: Vec<WriteAct>, write_default:
             let r = match rng.below(4) {
                 0 => RefMsg::Ack(own, rng.usize(N_OPS)),
                 1 => RefMsg::Unknown { addr: own, ty: 0x42, data: rng.bytes_upto(4) },
-                _ => RefMsg::Report(own, rng.usize(N_STATES)),
+                _ => {
+                    // (sessions of thousands of messages leave out the two states whose report costs 100 ms)
+                    let mut s = rng.usize(N_STATES);
+                    while msgs.len() > 100 && (s == S_LOAD_PROG || s == S_SHOW_PROG) {
+                        s = rng.usize(N_STATES);
+                    }
+                    RefMsg::Report(own, s)
+                }
             };
             tape.extend(refs::wire(&r));
         }
@@ -270,7 +277,11 @@ fn check_session_rf(msgs: &[RefMsg], write_script: Vec<WriteAct>, write_default:
             read_boundaries.push(rng.usize(tape.len()));
         }
     }
-    let sig = format!("session|{}|w{:?}/{:?}|r{:?}|{}", msgs.iter().map(|m| m.show()).collect::<Vec<_>>().join(";"), write_script, write_default, read_faults, hex(&tape));
+    let sig = if msgs.len() > 100 {
+        format!("long session of {} messages|{:016x}", msgs.len(), fnv(&tape))
+    } else {
+        format!("session|{}|w{:?}/{:?}|r{:?}|{}", msgs.iter().map(|m| m.show()).collect::<Vec<_>>().join(";"), write_script, write_default, read_faults, hex(&tape))
+    };
     rep.case(Some(fnv(sig.as_bytes())));
     rep.count("sessions");
     let st = doubles::shared(doubles::WEIRD_SETTINGS);
@@ -298,6 +309,9 @@ fn check_session_rf(msgs: &[RefMsg], write_script: Vec<WriteAct>, write_default:
         let want = refs::wire(m);
         let write_failed = events.iter().any(|e| matches!(&e.ev, PortEv::Write { bytes, returned } if matches!(returned, Err(k) if *k != io::ErrorKind::Interrupted) || (matches!(returned, Ok(0)) && !bytes.is_empty())));
         let reads = events.iter().filter(|e| matches!(e.ev, PortEv::Read { .. })).count();
+        if transcript.len() > 8 {
+            transcript.remove(0); // long sessions: keep the last few exchanges for the report
+        }
         transcript.push(format!("#{} {} wrote [{}] -> {:?}", k, m.show(), show_bytes(&written), r.as_ref().map_err(|p| p.msg.clone())));
         let mut bad: Vec<(&'static str, String)> = vec![];
         match &r {
@@ -422,6 +436,13 @@ fn sessions(ctx: &Ctx, shard: usize, n: u64, rep: &mut Report) {
             }
         }
         rep.count("session_core_done");
+    }
+    if shard == 1 {
+        // one bus instance, 70 000 messages (more than any 16-bit counter holds), each judged like any other
+        let msgs: Vec<RefMsg> = (0..70_000usize).map(|i| if i % 3 == 0 { RefMsg::Query((i / 3) as u16) } else { pool(&mut rng) }).collect();
+        let before = rep.get("session_messages_checked");
+        check_session(&msgs, vec![], WriteAct::Accept(usize::MAX), &mut rng, rep);
+        rep.add("long_session_messages_checked", rep.get("session_messages_checked") - before);
     }
     for _ in 0..n {
         let k = 2 + rng.usize(4);
@@ -664,6 +685,7 @@ pub fn run(ctx: &Ctx) -> Outcome {
     floors.push(floor("write failures hit", report.get("write_failures_injected_and_hit") > 0, report.get("write_failures_injected_and_hit")));
     floors.push(floor("read failures hit", report.get("read_failures_injected_and_hit") > 0, report.get("read_failures_injected_and_hit")));
     floors.push(floor("sessions that go on after a reply was cut short (read error / end of stream mid-session)", report.get("session_read_faults_hit") > 500, report.get("session_read_faults_hit")));
+    floors.push(floor("one bus instance used for 70 000 messages", report.get("long_session_messages_checked") == 70_000, report.get("long_session_messages_checked")));
     floors.push(floor("multi-message sessions on one bus (write failure at every call index + random)", report.get("session_core_done") == 1 && report.get("sessions") > 1000 && report.get("session_write_failures_hit") > 100, report.get("sessions")));
     floors.push(floor("fault-at-every-index case lists ran", report.get("cases/write_fault_each_call") > 50 && report.get("cases/read_fault_each_position") > 100 && report.get("cases/read_fragmentation") == 4096, report.get("cases/read_fault_each_position")));
     let sizes: Vec<J> = {
